@@ -158,7 +158,10 @@ def shard(ctx, budget_s):
             tha = rng.choice([b"\0" * 6, gen.rnd_mac(rng), cfg.mac])
             sha = rng.choice([e.cmac, gen.rnd_mac(rng)])
             spa = tpa if rng.random() < 0.08 else (bytes(4) if rng.random() < 0.05 else e.cip)     # also: sender address = target address, 0.0.0.0 (probe)
-            items.append(("arp", pkt.eth(dm, e.cmac, ET_ARP, pkt.arp(op, sha, spa, tha, tpa) + b"\0" * rng.randrange(0, 19))))
+            # the hardware-type field of a request is whatever the asker's stack puts there (IEEE 802 = 6 on some); the answer is
+            # an Ethernet / IPv4 reply all the same
+            ht = rng.choice([1, 1, 1, 1, 1, 1, 1, 6, 0, 0x0101, 0xFFFF, rng.getrandbits(16)])
+            items.append(("arp", pkt.eth(dm, e.cmac, ET_ARP, pkt.arp(op, sha, spa, tha, tpa, htype=ht) + b"\0" * rng.randrange(0, 19))))
             if rng.random() < 0.1:
                 items.append(items[-1])          # byte-identical retransmission
         for _ in range(60):
